@@ -155,9 +155,10 @@ func (vc *VC) generate() (err error) {
 		vc.vals[p] = t
 		vc.params[names[i].Name] = binding{t: t, typ: goT(p.Type())}
 		vc.assumeValid(t, p.Type())
-		if _, isPtr := p.Type().Underlying().(*types.Pointer); isPtr {
+		if _, isPtr := p.Type().Underlying().(*types.Pointer); isPtr && vc.entryObjectsExist() {
 			// a non-nil pointer parameter points into an object that exists at entry (the guard of the validity facts
-			// about the fields of existing objects)
+			// about the fields of existing objects); stated only for contracts that ask for it (clause
+			// entry_objects_exist), so that the queries of the other functions stay what they were
 			vc.assume(implies(not(eq(t, "0")), and(app("<", "0", app("ys.root", t)), app("<", app("ys.root", t), vc.next(vc.entry)))))
 		}
 		vc.witness = append(vc.witness, namedTerm{names[i].Name, t, vc.reg.sortOf(p.Type())})
@@ -889,6 +890,19 @@ func (vc *VC) validity(t Term, typ types.Type) Term {
 			app("<", app("ys.ipay", t), vc.next(vc.cur)))
 	}
 	return "true"
+}
+
+// entryObjectsExist: the contract carries the clause entry_objects_exist.
+func (vc *VC) entryObjectsExist() bool {
+	if vc.decl == nil {
+		return false
+	}
+	for _, c := range vc.decl.Clauses {
+		if c.Kind == "entry_objects_exist" {
+			return true
+		}
+	}
+	return false
 }
 
 func (vc *VC) assumeValid(t Term, typ types.Type) {
